@@ -117,7 +117,26 @@ var c04envMap = map[string]string{"X": "xv", "Y": "yv", "Z": "zv", "BT": "true",
 
 // c04expected maps every key and value string of the generic JSON tree
 // through the single-pass expansion, except under `signature`.
+// c04commandPaths lists the JSON paths of the typed command steps of a parsed pipeline (top level and inside typed
+// groups). Only their `signature` is exempt from interpolation; a mapping with command + signature keys inside an unknown
+// step or an unknown field is plain data.
+func c04commandPaths(steps pipeline.Steps, prefix string, out map[string]bool) {
+	for i, st := range steps {
+		path := fmt.Sprintf("%s.steps[%d]", prefix, i)
+		switch t := st.(type) {
+		case *pipeline.CommandStep:
+			out[path] = true
+		case *pipeline.GroupStep:
+			c04commandPaths(t.Steps, path, out)
+		}
+	}
+}
+
 func c04expected(n *docgen.N, env interpolate.Env) (*docgen.N, error) {
+	return c04expectedAt(n, env, "$", nil)
+}
+
+func c04expectedAt(n *docgen.N, env interpolate.Env, path string, cmds map[string]bool) (*docgen.N, error) {
 	switch n.K {
 	case docgen.KStr:
 		s, err := interpolate.Interpolate(env, n.S)
@@ -128,7 +147,7 @@ func c04expected(n *docgen.N, env interpolate.Env) (*docgen.N, error) {
 	case docgen.KSeq:
 		out := docgen.Seq()
 		for _, it := range n.Items {
-			c, err := c04expected(it, env)
+			c, err := c04expectedAt(it, env, fmt.Sprintf("%s[%d]", path, len(out.Items)), cmds)
 			if err != nil {
 				return nil, err
 			}
@@ -138,7 +157,7 @@ func c04expected(n *docgen.N, env interpolate.Env) (*docgen.N, error) {
 	case docgen.KMap:
 		out := &docgen.N{K: docgen.KMap}
 		for i, k := range n.Keys {
-			if k == "signature" && n.Get("command") != nil {
+			if k == "signature" && ((cmds == nil && n.Get("command") != nil) || cmds[path]) {
 				// the signature of a command step (a key named signature anywhere else is ordinary data)
 				out.Keys = append(out.Keys, k)
 				out.Vals = append(out.Vals, n.Vals[i].Clone())
@@ -148,7 +167,7 @@ func c04expected(n *docgen.N, env interpolate.Env) (*docgen.N, error) {
 			if err != nil {
 				return nil, err
 			}
-			c, err := c04expected(n.Vals[i], env)
+			c, err := c04expectedAt(n.Vals[i], env, path+"."+k, cmds)
 			if err != nil {
 				return nil, err
 			}
@@ -203,7 +222,9 @@ func c04onceOrd(text string, choose verifseam.Chooser, ordered bool) c04outcome 
 		return c04outcome{"harness", "read before: " + err.Error()}
 	}
 	env := verifexport.NewEnv(true, c04envMap)
-	want, werr := c04expected(bt, verifexport.NewEnv(true, c04envMap))
+	cmdPaths := map[string]bool{}
+	c04commandPaths(p.Steps, "$", cmdPaths)
+	want, werr := c04expectedAt(bt, verifexport.NewEnv(true, c04envMap), "$", cmdPaths)
 	var ierr error
 	verifseam.SetChooser(choose)
 	pan := report.Catch(func() { ierr = p.Interpolate(env, false) })
